@@ -649,7 +649,7 @@ class Runner:
         cause = getattr(self, "cause", None)
         if cause and cls in ("recheck-fails", "final-check-fails", "recheck-other-result"):
             cls = "%s:%s" % (cls, cause)
-            key = "%s:%s" % (cls, method_name)
+            key = cls if cause == "fact-with-foreign-hypothesis" else "%s:%s" % (cls, method_name)
             what = "%s after %s on %s: %s" % (cls, method_name, self.goal.ident(), detail)
             rp = self.replay_dict({"invariant": cls, "detail": detail})
             self.ctx.violation(key, what, rp)
@@ -800,6 +800,14 @@ def step_cause(state, step):
                 if it.rule == "intros":
                     return "repeated-exists-elim" if it.args else None
                 i += 1
+        # a cited fact depends on a hypothesis the goal does not have (e.g. a gap stated before
+        # revert_intro removed the assumption): the methods splice it in all the same
+        it = state.get_proof_item(gp)
+        if it.th is not None and step.get("fact_ids"):
+            for f in step["fact_ids"]:
+                ft = state.get_proof_item(tuple(int(x) for x in f.split("."))).th
+                if ft is not None and not set(ft.hyps) <= set(it.th.hyps):
+                    return "fact-with-foreign-hypothesis"
     except Exception:  # noqa
         return None
     return None
@@ -1393,9 +1401,11 @@ FINDINGS = [
     {"status": "fixed", "key": "import-fails:cases:TypeInferenceException:_Unspecified_type_Var(k,", "commit": "fixes/C13-8.patch",
      "what": "get_vars(id) put the variable declared at line id in scope of a line inserted before it (nat.mult_1_right: new_var k at 0, "
              "cut `k` at 0): the export mentions k before its declaration and cannot be re-imported"},
-    {"status": "fixed", "key": "recheck-fails:apply_backward_step:CheckProofException:_output_does_not", "commit": "fixes/C13-9.patch",
-     "what": "apply_tactic replaced the goal by a line with a weaker sequent when a cited fact has a hypothesis the goal lacks "
-             "(generated goal (A --> B) --> ~B --> ~A: cut ~B x3, revert_intro 5/1, apply_backward_step negE_gen goal 4 fact 2)"},
+    {"status": "known", "key": "recheck-fails:fact-with-foreign-hypothesis",
+     "what": "a method applied with a fact that depends on a hypothesis the goal does not have replaces the goal line by one with a weaker "
+             "sequent, after which the lines citing it do not re-check (generated goal (A --> B) --> ~B --> ~A: cut ~B three times, "
+             "revert_intro goal 5 fact 1, apply_backward_step negE_gen goal 4 fact 2). Refusing in apply_tactic alone would make search "
+             "suggest steps that apply refuses; a fix has to filter in every search as well"},
     {"status": "fixed", "key": "import-fails:induction:TypeError:", "commit": "fixes/C13-1.patch",
      "what": "a state with an apply_induct line (any use of the induction method, e.g. list.append_right_neutral) could not be re-imported: "
              "parser.parse_args had no case for Tuple[str, Term, Term]"},
